@@ -3,7 +3,7 @@
    is read through the closing primitives, was consumed.  That every consumed identifier / literal is also STORED in the tree is
    not a theorem here (it would be a second sweep over the parser model); it is judged on the implementation by unique renaming. *)
 From Coq Require Import List NArith ZArith Bool String Ascii Lia.
-Require Import Base.Common Gen.LexTable Lex.Model Cur.Model Cur.Proofs Tree.Value Gen.Static Parse.Prim Parse.Model Parse.C08Facts Parse.Suffix Stmt.C06Facts Print.Model.
+Require Import Base.Common Gen.LexTable Lex.Model Cur.Model Cur.Proofs Tree.Value Gen.Static Parse.Prim Parse.Model Parse.C08Facts Cur.Split Parse.SplitFacts Parse.Suffix Stmt.C06Facts Print.Model.
 Import ListNotations.
 Open Scope string_scope.
 Open Scope list_scope.
@@ -19,6 +19,24 @@ Proof. exact close_ok_iff. Qed.
 Theorem C08_segments_fully_consumed : forall (item : toks -> PR) segs vs, each_closed item segs = Ok vs ->
   Forall2 (fun sg v => item sg = Ok (v, [])) segs vs.
 Proof. exact each_closed_consumes. Qed.
+
+(* 2b. the split itself loses nothing: a bracket group split at a separator and parsed segment by segment (pop_split + each_closed,
+   ANY item parser, any separator) is accounted for token by token -- the accepted segments, in order, are the group's children with only
+   the separators struck out; no segment is empty or contains a separator; each was consumed to its end; one value per segment *)
+Theorem C08_split_group_accounted : forall (item : toks -> PR) s ts segs r vs,
+  pop_split s ts = Ok (segs, r) -> each_closed item segs = Ok vs ->
+  exists g, ts = g :: r /\ is_group g = true
+    /\ List.concat segs = filter (not_sep s) (tok_children g)
+    /\ Forall (fun sg => sg <> [] /\ Forall (fun t => is_sep s t = false) sg) segs
+    /\ Forall2 (fun sg v => item sg = Ok (v, [])) segs vs
+    /\ List.length vs = List.length segs
+    /\ (List.length segs <= List.length (filter (is_sep s) (tok_children g)) + 1)%nat.
+Proof. exact split_group_accounted. Qed.
+(* 2c. and a leftover token in any one segment rejects the whole group *)
+Theorem C08_split_group_leftover_rejected : forall (item : toks -> PR) segs1 sg segs2 v t rest,
+  Forall (fun x => exists w, item x = Ok (w, [])) segs1 -> item sg = Ok (v, t :: rest) ->
+  each_closed item (segs1 ++ sg :: segs2) = Err ParseErr.
+Proof. exact split_group_leftover_rejected. Qed.
 
 (* 3. parse_statements accepts only when the whole token list has been consumed: every accepted run of the statement loop ends with
    an empty remainder (for any number of statements, any fuel, any dialect) *)
@@ -43,6 +61,8 @@ Proof. vm_compute. reflexivity. Qed.
 Print Assumptions C08_close_reports.
 Print Assumptions C08_close_model.
 Print Assumptions C08_segments_fully_consumed.
+Print Assumptions C08_split_group_accounted.
+Print Assumptions C08_split_group_leftover_rejected.
 Print Assumptions C08_statements_consume_everything.
 Print Assumptions C08_remainder_is_suffix.
 Print Assumptions C08_literal_printed_verbatim.
